@@ -61,9 +61,11 @@ func verifCheckRead(id int, text string, code, union, rest string, actionOf map[
 				verifAssert(r.RighPart[i].Name == e.Rhs[i], "C10: right-hand-side symbol differs from the file")
 			}
 		}
-		// explicit %prec annotation (the implicit last-terminal rule is C04's subject)
+		// the rule's precedence symbol: its %prec annotation, else its last terminal that has a level, else none
 		if e.Prec != "" {
 			verifAssert(r.PrecIdSym != nil && r.PrecIdSym.Id.Name == e.Prec, "C10: %prec annotation lost or changed")
+		} else {
+			verifAssert(r.PrecIdSym == nil, "C10: a rule without %prec and without a terminal that has a level was given a precedence")
 		}
 		want := e.Action
 		if a, ok := actionOf[k]; ok {
